@@ -1,6 +1,7 @@
 package c20
 
 import (
+	"encoding/binary"
 	"encoding/json"
 	"fmt"
 	"go/ast"
@@ -13,6 +14,8 @@ import (
 	"testing"
 
 	"github.com/paulmach/orb"
+	"github.com/paulmach/orb/encoding/ewkb"
+	"github.com/paulmach/orb/encoding/wkb"
 	"pgregory.net/rapid"
 
 	"verifharness/internal/gen"
@@ -50,7 +53,7 @@ func TestPropGeneric(t *testing.T) {
 // one-entry caches, pooled encoders kept in package variables).
 func TestPropConcurrent(t *testing.T) {
 	assumptions()
-	stats.Assume("concurrent groups: checkCase is a pure function of the case; no orb package-level setting (geojson.CustomJSONMarshaler, orb.DefaultRoundingFactor, wkb.DefaultByteOrder) is written by the check")
+	stats.Assume("concurrent groups: checkCase is a pure function of the case; no orb package-level setting is written while they run (wkb/ewkb.DefaultByteOrder and ewkb.DefaultSRID are varied only by the sequential TestPropPackageSettings and restored)")
 	stats.Check(t, 400, 30000, func(rt *rapid.T) {
 		n := rapid.IntRange(2, 8).Draw(rt, "goroutines")
 		cs := make([]Case, n)
@@ -73,6 +76,55 @@ func TestPropConcurrent(t *testing.T) {
 		}
 		stats.TryParallel(rt, "TestPropConcurrent", cs, n, 8, func(i int) error { return checkCase(cs[i]) })
 	})
+}
+
+// TestPropPackageSettings (sequential; settings restored with defer; never inside concurrent groups):
+// with wkb.DefaultByteOrder, ewkb.DefaultByteOrder and ewkb.DefaultSRID set to each documented value,
+// every encoder entry point without an explicit argument for the setting must follow it: own writer
+// anchor, collection = header + members, convenience forms = Marshal.
+func TestPropPackageSettings(t *testing.T) {
+	assumptions()
+	currentTest = "TestPropPackageSettings"
+	type setting struct {
+		w, e binary.ByteOrder
+		srid int
+	}
+	settings := []setting{{binary.BigEndian, binary.BigEndian, 3857}, {binary.BigEndian, binary.LittleEndian, 1}, {binary.LittleEndian, binary.BigEndian, 4326}}
+	only := map[string]bool{"wkb": true}
+	stats.Check(t, 2400, 60000, func(rt *rapid.T) {
+		c, class := genCase(rt)
+		if l := c.Large; l != nil && l.N > 130 {
+			l.N = 130
+		}
+		st := settings[rapid.IntRange(0, len(settings)-1).Draw(rt, "setting")]
+		stats.Class(fmt.Sprintf("settings:wkb %v, ewkb %v, srid %d", st.w, st.e, st.srid))
+		stats.Class("settings-source:" + class)
+		func() {
+			ow, oe, os := wkb.DefaultByteOrder, ewkb.DefaultByteOrder, ewkb.DefaultSRID
+			cw, ce, cs := cfgWKBOrder, cfgEWKBOrder, cfgEWKBSRID
+			defer func() {
+				wkb.DefaultByteOrder, ewkb.DefaultByteOrder, ewkb.DefaultSRID = ow, oe, os
+				cfgWKBOrder, cfgEWKBOrder, cfgEWKBSRID = cw, ce, cs
+			}()
+			wkb.DefaultByteOrder, ewkb.DefaultByteOrder, ewkb.DefaultSRID = st.w, st.e, st.srid
+			cfgWKBOrder, cfgEWKBOrder, cfgEWKBSRID = st.w, st.e, st.srid
+			stats.Try(rt, "TestPropPackageSettings", settingsCase{Case: c, WKB: fmt.Sprint(st.w), EWKB: fmt.Sprint(st.e), SRID: st.srid}, func() error { return checkCaseOnly(c, only) })
+		}()
+	})
+}
+
+type settingsCase struct {
+	Case Case   `json:"case"`
+	WKB  string `json:"wkb_default_byte_order"`
+	EWKB string `json:"ewkb_default_byte_order"`
+	SRID int    `json:"ewkb_default_srid"`
+}
+
+func orderOf(s string) binary.ByteOrder {
+	if s == fmt.Sprint(binary.BigEndian) {
+		return binary.BigEndian
+	}
+	return binary.LittleEndian
 }
 
 // TestEnumCatalogue runs the whole degenerate catalogue (including values the replay format cannot
@@ -519,6 +571,20 @@ func TestReplay(t *testing.T) {
 			if err := stats.ParallelErr(len(cs), 100, func(i int) error { return checkCase(cs[i]) }); err != nil {
 				t.Fatalf("replayed concurrent group still fails: %v", err)
 			}
+		}
+		return
+	}
+	if name == "TestPropPackageSettings" {
+		var sc settingsCase
+		if err := json.Unmarshal(raw, &sc); err != nil {
+			t.Fatal(err)
+		}
+		ow, oe, os := wkb.DefaultByteOrder, ewkb.DefaultByteOrder, ewkb.DefaultSRID
+		defer func() { wkb.DefaultByteOrder, ewkb.DefaultByteOrder, ewkb.DefaultSRID = ow, oe, os }()
+		wkb.DefaultByteOrder, ewkb.DefaultByteOrder, ewkb.DefaultSRID = orderOf(sc.WKB), orderOf(sc.EWKB), sc.SRID
+		cfgWKBOrder, cfgEWKBOrder, cfgEWKBSRID = orderOf(sc.WKB), orderOf(sc.EWKB), sc.SRID
+		if err := stats.Guard(func() error { return checkCaseOnly(sc.Case, map[string]bool{"wkb": true}) }); err != nil {
+			t.Fatalf("replayed case still fails: %v", err)
 		}
 		return
 	}
